@@ -1,13 +1,16 @@
-import XvcPipeline.Inv
+import XvcPipeline.Props.C10
 /-!
 # C13 — Concurrent step commands never exceed the configured process pool
-(model: `Sched.lean`, after fix patch C13-F6: one shared counter, reserve under one write lock)
+
+Model: `Sched.lean` after fix patch C13-F6 (ONE `available_process_slots` counter created in
+`the_grand_pipeline_loop`; `reserve_process_slot` checks and decrements under one write lock).
+All theorems: every pipeline, every pool size, every schedule.
 -/
 namespace Sched
 open Gen
 
-/-- at every moment of every run, for every pipeline: the number of running step commands (and of step threads
-    in state `Running`) is at most `pipeline.process_pool_size` -/
+/-- at every moment of every run: the number of running step commands, and of step threads in state `Running`,
+    is at most `pipeline.process_pool_size` -/
 theorem C13_pool_bound {c : Cfg} {σ : Sys} (r : Reach c σ) :
     cntP σ.proc c.n ≤ c.pool ∧ cnt σ.loc c.n ≤ c.pool := by
   have h := reach_inv r
@@ -15,5 +18,54 @@ theorem C13_pool_bound {c : Cfg} {σ : Sys} (r : Reach c σ) :
   have h2 : cnt σ.loc c.n + σ.slots = c.pool := h.pool
   omega
 
+/-- the counter is exact: free slots + threads holding a slot = pool size (no slot is lost or invented, also when
+    a step thread fails) -/
+theorem C13_slots_exact {c : Cfg} {σ : Sys} (r : Reach c σ) : cnt σ.loc c.n + σ.slots = c.pool :=
+  (reach_inv r).pool
+
+/-- with a pool of 1 no two step commands ever run at the same time: the executions are totally ordered -/
+theorem C13_pool_one_serial {c : Cfg} {σ : Sys} (r : Reach c σ) (hp : c.pool = 1) (s t : Nat)
+    (hs : s < c.n) (ht : t < c.n) (h1 : σ.proc s = .running) (h2 : σ.proc t = .running) : s = t := by
+  have hb := (C13_pool_bound r).1
+  rcases Nat.lt_trichotomy s t with h | h | h
+  · have := cntP_two h ht h1 h2; omega
+  · exact h
+  · have := cntP_two h hs h2 h1; omega
+
+/-- ... and that order is compatible with the dependency graph: whenever the command of `s` has been started,
+    no command of a step it depends on is running (it ended before, by C10) -/
+theorem C13_serial_respects_deps {c : Cfg} {σ : Sys} (r : Reach c σ) (s d : Nat) (hd : d ∈ c.deps s)
+    (h : σ.proc s ≠ .idle) : σ.proc d ≠ .running := by
+  rcases C10_deps_done_before_start r s h with h1 | ⟨_, h2⟩
+  · rcases h1 d hd with ⟨_, hp⟩ | ⟨_, hp⟩ <;> rw [hp] <;> simp
+  · exact (h2 d hd).2
+
+/-! ### non-vacuity -/
+
+/-- three independent steps, pool 1 -/
+def demoPool : Cfg :=
+  { n := 3, deps := fun _ => [], pool := 1, rc := fun _ => run_always, noDeps := fun _ => true }
+
+/-- the bound is tight and the pool really blocks: step 0 runs, step 1 finds the pool full, cannot start, and starts
+    after step 0 has ended -/
+example : (runL demoPool (init demoPool)
+    (toWaitingToRun 0 ++ [.handler 0 .StartProcess, .publish 0, .handler 0 .WaitProcess, .publish 0] ++
+     toWaitingToRun 1 ++ [.handler 1 .ProcessPoolFull, .publish 1])).map
+    (fun σ => (cntP σ.proc 3, σ.slots, decide (σ.frm 1 = .ProcessPoolFull))) = some (1, 0, true) := by decide
+
+example : (runL demoPool (init demoPool)
+    (toWaitingToRun 0 ++ [.handler 0 .StartProcess, .publish 0, .handler 0 .WaitProcess, .publish 0] ++
+     toWaitingToRun 1 ++ [.handler 1 .StartProcess])).isSome = false := by decide
+
+example : (runL demoPool (init demoPool)
+    (toWaitingToRun 0 ++ [.handler 0 .StartProcess, .publish 0, .handler 0 .WaitProcess, .publish 0] ++
+     toWaitingToRun 1 ++ [.handler 1 .ProcessPoolFull, .publish 1, .procExit 0 true,
+       .handler 0 .ProcessCompletedSuccessfully, .handler 1 .StartProcess, .publish 1, .handler 1 .WaitProcess])).map
+    (fun σ => (cntP σ.proc 3, σ.slots, decide (σ.proc 1 = .running), decide (σ.proc 0 = .exited true))) =
+    some (1, 0, true, true) := by decide
+
 #print axioms C13_pool_bound
+#print axioms C13_slots_exact
+#print axioms C13_pool_one_serial
+#print axioms C13_serial_respects_deps
 end Sched
